@@ -162,6 +162,20 @@ class Builder:
     def paths(self, fn: ast.FunctionDef, ctx: Ctx, binding: dict | None = None, max_paths: int = 256,
               fixed: dict | None = None) -> list[Path]:
         """Enumerate all static-case paths through fn (DFS over test outcomes)."""
+        return self._enumerate(lambda: self._run_function(fn, ctx, binding), max_paths, fixed, getattr(fn, "name", "?"))
+
+    def apply_paths(self, clo: "Closure", args: tuple, kwargs: tuple = (), max_paths: int = 64, fixed: dict | None = None) -> list[Path]:
+        """Enumerate the static-case paths of applying a closure to argument nodes."""
+
+        def runner():
+            try:
+                return self.apply(clo, args, kwargs), {}, {}
+            except _Return as r:  # pragma: no cover
+                return r.value, {}, {}
+
+        return self._enumerate(runner, max_paths, fixed, repr(clo))
+
+    def _enumerate(self, runner, max_paths, fixed, what) -> list[Path]:
         results: list[Path] = []
         stack: list[list] = [[]]  # prefixes of forced decisions [(test, value)]
         seen_prefix = set()
@@ -178,13 +192,13 @@ class Builder:
             env = {}
             self_attrs = {}
             try:
-                ret, env, self_attrs = self._run_function(fn, ctx, binding)
+                ret, env, self_attrs = runner()
             except _Raise as r:
                 raised = r.value
             trace = list(self.trace)
             results.append(Path(trace, ret, raised, env, self_attrs, list(self.effects), list(self.asserts)))
             if len(results) > max_paths:
-                raise Unsupported(f"more than {max_paths} static paths in {getattr(fn, 'name', '?')}")
+                raise Unsupported(f"more than {max_paths} static paths in {what}")
             # schedule alternatives for decisions made by default beyond the forced prefix
             forced = len(prefix)
             for i in range(len(trace) - 1, forced - 1, -1):
@@ -739,7 +753,7 @@ class Builder:
                         if dc.is_abstractmethod(name) or self.overridden_below(ci, name, dc):
                             return ("attr", base, name)  # polymorphic: stays an uninterpreted method
                         if dc.is_static(name):
-                            return self.func_ref(dc, obj, None, dyn_cls=ci, receiver=base)
+                            return self.func_ref(dc, obj, None, dyn_cls=ci)
                         return self.func_ref(dc, obj, base, dyn_cls=ci)
                     if kind == "assign":
                         v = self.class_assign(dc, name, obj)
@@ -1312,3 +1326,43 @@ def _show(n, d):
     if k == "scan":
         return f"scan({_show(n[1], d+1)}, init={_show(n[2], d+1)}, xs={_show(n[3], d+1)}, length={_show(n[4], d+1)}, reverse={_show(n[5], d+1)})"
     return "(" + " ".join(_show(x, d + 1) if isinstance(x, (tuple, Closure)) else repr(x) for x in n) + ")"
+
+
+def mapnodes(n, f, memo=None):
+    """Bottom-up rewrite: f(node_with_rewritten_children) -> node. Closures are left untouched."""
+    if memo is None:
+        memo = {}
+    if isinstance(n, (Closure, SelfObj)) or not isinstance(n, tuple):
+        return n
+    try:
+        if n in memo:
+            return memo[n]
+        hashable = True
+    except TypeError:
+        hashable = False
+    new = tuple(mapnodes(x, f, memo) if isinstance(x, tuple) else x for x in n)
+    r = f(new)
+    if hashable:
+        memo[n] = r
+    return r
+
+
+KEY = ("const", "<key>")
+
+
+def strip_keys(n):
+    """Replace every `key=` keyword argument by a wildcard (key routing is decided by the provenance rules)."""
+
+    def f(x):
+        if x and x[0] == "call" and isinstance(x[3], tuple) and any(k == "key" for k, _ in x[3] if isinstance(k, str)):
+            return ("call", x[1], x[2], tuple((k, KEY if k == "key" else v) for k, v in x[3]))
+        return x
+
+    return mapnodes(n, f)
+
+
+def replace_nodes(n, mapping: dict):
+    def f(x):
+        return mapping.get(x, x)
+
+    return mapnodes(n, f)
